@@ -65,27 +65,44 @@ def c20(tier, sc):
     vh = build_harness(sc)
     tfile, jfile = gen_tables(sc, vh)
     tables = json.load(open(jfile))
-    d = stage_specs(sc, "c20", [tfile])
-    res = run_tlc(sc, d, "TablesProp.tla", "TablesProp.cfg", extra=["-continue"], timeout=600)
-    rep.add_tlc("TablesProp", res)
-    viols = _c20_violations(res.out)
-    announced = len(re.findall(r"Error: Invariant \w+ is violated", res.out))
-    if announced != len(viols):
-        raise ToolFailure("TablesProp: TLC announced %d violations, %d parsed:\n%s" % (announced, len(viols), res.out[-3000:]))
-    tlc_sound(res, "TablesProp")
+    # the same tables after use: every entry looked up through IsSQLi / IsXSS in three spellings (harness warmTables);
+    # a table that changes with use is judged in its used state as well
+    wd = sc.path("c20warm_gen")
+    os.makedirs(wd, exist_ok=True)
+    wt, wj = os.path.join(wd, "Tables.tla"), os.path.join(wd, "tables.json")
+    wrc, wout = run([vh, "tables", "Tables", wt, wj], timeout=600, env={"VH_TABLES_WARM": "1"})
+    if wrc != 0 or not os.path.exists(wj):
+        raise ToolFailure("vh tables (warm) failed: rc=%s %s" % (wrc, wout[-2000:]))
+    wtables = json.load(open(wj))
+    changed = wtables != tables
+    rep.part("warm", changed_by_use=changed, note=wout.strip()[-200:])
     n_cur = len(tables["keywords"]) + len(tables["tags"]) + len(tables["attrs"]) + len(tables["events"])
-    for v in viols:
-        st = c20_entry_status(tables, v["tbl"], v["key"], v["val"])
-        base = v["tbl"].startswith("base.")
-        # confirmed against the running code's tables: a malformed entry must really be there,
-        # a lost baseline entry must really be absent / re-classified
-        confirmed = (base and (not st["present"] or st.get("val", v["val"]) != v["val"])) or \
-                    (not base and st["present"])
-        if confirmed:
-            rep.violation("%s: table %s entry %r (class %s)" % (v["invariant"], v["tbl"], show(v["key"]), v["val"]),
-                          {"kind": "c20.entry", "tbl": v["tbl"], "key": v["key"], "val": v["val"], "invariant": v["invariant"]})
-        else:
-            rep.notes.append("model_counterexample_unreproduced: %r" % v)
+    res = None
+    for label, tf, tb in [("TablesProp", tfile, tables)] + ([("TablesProp.used", wt, wtables)] if changed else []):
+        d = stage_specs(sc, "c20" + ("" if tb is tables else "used"), [tf])
+        r = run_tlc(sc, d, "TablesProp.tla", "TablesProp.cfg", extra=["-continue"], timeout=600)
+        rep.add_tlc(label, r)
+        if res is None:
+            res = r
+        viols = _c20_violations(r.out)
+        announced = len(re.findall(r"Error: Invariant \w+ is violated", r.out))
+        if announced != len(viols):
+            raise ToolFailure("%s: TLC announced %d violations, %d parsed:\n%s" % (label, announced, len(viols), r.out[-3000:]))
+        tlc_sound(r, label)
+        for v in viols:
+            st = c20_entry_status(tb, v["tbl"], v["key"], v["val"])
+            base = v["tbl"].startswith("base.")
+            # confirmed against the running code's tables: a malformed entry must really be there,
+            # a lost baseline entry must really be absent / re-classified
+            confirmed = (base and (not st["present"] or st.get("val", v["val"]) != v["val"])) or \
+                        (not base and st["present"])
+            if confirmed:
+                rep.violation("%s: table %s entry %r (class %s)%s" % (v["invariant"], v["tbl"], show(v["key"]), v["val"],
+                                                                      "" if tb is tables else " after the detectors were used"),
+                              {"kind": "c20.entry", "tbl": v["tbl"], "key": v["key"], "val": v["val"], "invariant": v["invariant"],
+                               "used": tb is not tables})
+            else:
+                rep.notes.append("model_counterexample_unreproduced: %r" % v)
     # canary: a corrupted copy of the generated module must be rejected
     d2 = stage_specs(sc, "c20canary", [])
     txt = open(tfile).read()
@@ -112,6 +129,7 @@ def c20(tier, sc):
     rep.sample({"tbl": "kw", "key": show(tables["keywords"][len(tables["keywords"]) // 2]["key"]),
                 "val": chr(tables["keywords"][len(tables["keywords"]) // 2]["val"])})
     rep.sample({"tbl": "event", "key": show(tables["events"][0]["name"]), "val": tables["events"][0]["type"]})
+    rep.cov["warm_changed_by_use"] = changed
     rep.assumptions += ["VerifTables() returns the tables the detectors consult (it copies sqlKeywords, blackTags, blacks, blackEvents)",
                         "baseline/Baseline.tla is the snapshot of the pinned tree"]
     return rep.finish()
